@@ -160,7 +160,7 @@ def run_init(ctx, case):
 def main(tier, seed, jobs, only):
     t0 = time.time()
     code, ev, lines = H.run_module(__name__, tier, seed, jobs=jobs, only=only)
-    res = xhair.run_targets("c19_targets", timeout_s=120 if tier == "quick" else 480, jobs=min(jobs, 4), only="list_versions")
+    res = xhair.run_targets("c19_targets", timeout_s=300 if tier == "quick" else 900, jobs=min(jobs, 4), only="list_versions")
     cov = ev["coverage"]
     cov["crosshair"] = [{k: r.get(k) for k in ("name", "status", "wall_s", "call", "message")} for r in res]
     cov["obligations"] += len(res)
